@@ -474,7 +474,8 @@ impl Report {
             let key = format!("{}|{}|{}", v.sub, v.kind, v.class);
             let c = printed_classes.entry(key.clone()).or_insert(0);
             *c += 1;
-            if *c > 2 || nfile >= 60 {
+            let max_files: usize = std::env::var("MC_MAX_REPLAYS").ok().and_then(|s| s.parse().ok()).unwrap_or(60);
+            if *c > 2 || nfile >= max_files {
                 continue;
             }
             let _ = std::fs::create_dir_all(&rp_dir);
